@@ -113,6 +113,8 @@ LibRead lib_read(const TypeOps& t, const Bytes& bytes, const std::map<int64_t, i
 // Differential comparison of the library decoder with the reference decoder on one input.
 std::string compare_with_reference(Ctx& c, const TypeOps& t, const Bytes& bytes, const std::map<int64_t, int64_t>& handles, bool single_defect, const std::string& how, bool* accepted_noncanonical, bool* rejected);
 
+std::string sweep_one(Ctx& c, const TypeOps& t, size_t vi, size_t fi, int b, bool* interesting);
+std::string int_sweep_one(Ctx& c, const TypeOps& t, uint64_t u);
 std::string fuzz_one(Ctx& c, const TypeOps& t, bool is02, const uint8_t* data, size_t size, bool* accepted, bool* noncanonical);
 
 // Writer-side view of a table schema: deleted entries become active and an unknown entry is
